@@ -369,51 +369,34 @@ class Analysis:
         corr = self.S.correction
         for inst in self.f.instances:
             body = inst["body"]
-            kder = set()  # locals derived from a correction
-            changed = True
-            getter_dests = set()
-            while changed:
-                changed = False
-                for b in body["blocks"]:
-                    for st in b["stmts"]:
-                        if st["k"] != "assign" or st["place"]["p"]:
-                            continue
-                        rv = st["rv"]
-                        src = None
-                        if rv["k"] in ("use", "copy_for_deref"):
-                            src = rv["op"].get("c") or rv["op"].get("m") if rv["k"] == "use" else rv.get("place")
-                        elif rv["k"] == "cast":
-                            src = rv["op"].get("c") or rv["op"].get("m")
-                        if src is None:
-                            continue
-                        hit = (not src["p"] and src["l"] in kder) or self.place_hits_field(body, src, corr)
-                        if hit and st["place"]["l"] not in kder:
-                            kder.add(st["place"]["l"])
-                            changed = True
-                    t = b["term"]
-                    if t["k"] == "call" and t["f"]["k"] == "item" and not t["dest"]["p"]:
-                        r = t["f"]["resolved"] or t["f"]["declared"]
-                        if r.get("local") and r.get("inst") is not None and self.insts[r["inst"]]["name"] == self.S.correction_getter and t["dest"]["l"] not in kder:
-                            kder.add(t["dest"]["l"])
-                            changed = True
+            kder = self.derived_locals(inst, corr, self.S.correction_getter)
             if not kder:
                 continue
 
             def isk(op):
                 pl = op.get("c") or op.get("m")
-                return pl is not None and not pl["p"] and pl["l"] in kder
+                return kder.get(pl["l"], 0) if pl is not None and not pl["p"] else 0
+
+            def direction(kind, a, c):
+                """U->L when the correction is (in effect) added to the other operand, L->U when subtracted."""
+                ka, kc = isk(a), isk(c)
+                if (ka and kc) or not (ka or kc):
+                    return None
+                if kind == "add":
+                    sg = ka or kc
+                elif kc:
+                    sg = -kc
+                else:
+                    return None  # correction - time: not a conversion
+                return "U->L" if sg > 0 else "L->U"
 
             dirs = set()
             for b in body["blocks"]:
                 for st in b["stmts"]:
                     if st["k"] == "assign" and st["rv"]["k"] == "binop" and st["rv"]["op"] in ADD_OPS:
-                        a, c = st["rv"]["a"], st["rv"]["b"]
-                        if isk(a) and isk(c):
-                            continue
-                        if st["rv"]["op"].startswith("Add") and (isk(a) or isk(c)):
-                            dirs.add("U->L")
-                        if st["rv"]["op"].startswith("Sub") and isk(c):
-                            dirs.add("L->U")
+                        d_ = direction("add" if st["rv"]["op"].startswith("Add") else "sub", st["rv"]["a"], st["rv"]["b"])
+                        if d_:
+                            dirs.add(d_)
                 t = b["term"]
                 if t["k"] == "call" and t["f"]["k"] == "item":
                     r = t["f"]["resolved"] or t["f"]["declared"]
@@ -423,13 +406,9 @@ class Analysis:
                         a, c = t["args"]
                         if ah is not None and ah["a"] == 1:
                             a, c = c, a  # the helper computes param2 (op) param1
-                        if isk(a) and isk(c):
-                            continue
-                        kind = ARITH_CALLS[name][0] if ah is None else ah["kind"]
-                        if kind == "add" and (isk(a) or isk(c)):
-                            dirs.add("U->L")
-                        if kind == "sub" and isk(c):
-                            dirs.add("L->U")
+                        d_ = direction(ARITH_CALLS[name][0] if ah is None else ah["kind"], a, c)
+                        if d_:
+                            dirs.add(d_)
             if not dirs:
                 continue
             # interface: exactly one i64 parameter; result i64 or Result/Option<i64>
@@ -441,9 +420,10 @@ class Analysis:
             self.conversions[inst["id"]] = {"dir": dirs.pop(), "param": params[0], "name": inst["name"], "span": inst.get("span")}
 
     def derived_locals(self, inst, field, getter):
-        """Locals that hold (a copy or an integer conversion of) the given field / the result of its public getter."""
+        """{local: sign} for locals that hold (a copy, an integer conversion or the negation of) the given field /
+        the result of its public getter."""
         body = inst["body"]
-        der = set()
+        der = {}
         if field is None:
             return der
         changed = True
@@ -455,24 +435,38 @@ class Analysis:
                         continue
                     rv = st["rv"]
                     src = None
+                    sign = 1
                     if rv["k"] == "use":
                         src = rv["op"].get("c") or rv["op"].get("m")
                     elif rv["k"] == "copy_for_deref":
                         src = rv.get("place")
                     elif rv["k"] == "cast" and rv.get("ck") == "IntToInt":
                         src = rv["op"].get("c") or rv["op"].get("m")
+                    elif rv["k"] == "unop" and rv.get("op") == "Neg":
+                        src = rv["a"].get("c") or rv["a"].get("m")
+                        sign = -1
                     if src is None:
                         continue
-                    hit = (not src["p"] and src["l"] in der) or self.place_hits_field(body, src, field)
-                    if hit and st["place"]["l"] not in der:
-                        der.add(st["place"]["l"])
+                    if not src["p"] and src["l"] in der:
+                        sg = der[src["l"]] * sign
+                    elif self.place_hits_field(body, src, field):
+                        sg = sign
+                    else:
+                        continue
+                    if st["place"]["l"] not in der:
+                        der[st["place"]["l"]] = sg
                         changed = True
                 t = b["term"]
                 if t["k"] == "call" and t["f"]["k"] == "item" and not t["dest"]["p"]:
                     r = t["f"]["resolved"] or t["f"]["declared"]
                     if r.get("local") and r.get("inst") is not None and self.insts[r["inst"]]["name"] == getter and t["dest"]["l"] not in der:
-                        der.add(t["dest"]["l"])
+                        der[t["dest"]["l"]] = 1
                         changed = True
+                    elif not r.get("local") and "core::num" in r["def"] and r["def"].rsplit("::", 1)[-1] in ("wrapping_neg", "saturating_neg") and t["args"] and t["dest"]["l"] not in der:
+                        pl = t["args"][0].get("c") or t["args"][0].get("m")
+                        if pl is not None and not pl["p"] and pl["l"] in der:
+                            der[t["dest"]["l"]] = -der[pl["l"]]
+                            changed = True
         return der
 
     def place_hits_field(self, body, pl, target):
@@ -865,17 +859,22 @@ class Analysis:
 
         def is_off(op):
             pl = op.get("c") or op.get("m")
-            return pl is not None and not pl["p"] and pl["l"] in oder
+            return oder.get(pl["l"], 0) if pl is not None and not pl["p"] else 0
 
         def offset_shift(kind, ops, nodes, res, span):
             """`time + offset` / `time - offset`: civil = UTC + offset. Returns True when the operation was one."""
             offs = [is_off(o) for o in ops]
-            if sum(offs) != 1:
+            if len([x for x in offs if x]) != 1:
                 return False
-            k = offs.index(True)
+            k = 0 if offs[0] else 1
             other, on = ops[1 - k], nodes[1 - k]
             if is_delta(other) or on is None:
                 return True  # offset arithmetic among deltas: no scale involved
+            if kind == "sub" and k == 0:
+                return True  # offset - time: not a scale shift
+            if offs[k] < 0:
+                kind = "sub" if kind == "add" else "add"  # time + (-offset) = time - offset
+                k = 1
             if kind == "add":
                 uf.seed(on, "U", "the time operand of `time + UTC offset` (civil = UTC + offset)", span)
                 uf.seed(res, "C", "the result of `time + UTC offset` (a civil / local clock reading)", span)
